@@ -156,6 +156,9 @@ func aggregate(prop string, cfg PropConfig, reports []*FuncReport, known []Known
 		res.Trusted = append(res.Trusted, t)
 	}
 	sort.Strings(res.Trusted)
+	if res.Trusted == nil {
+		res.Trusted = []string{}
+	}
 	switch {
 	case len(res.Vacuity) > 0:
 		for _, v := range res.Vacuity {
